@@ -72,13 +72,16 @@ Definition agrees (k : case) : bool :=
   | Panic => (k_enc_code k =? 2)%nat
   end.
 
-(** the guarded theorem's hypothesis *)
-Definition in_domain (k : case) : bool := guard (mk_buckets (k_buckets k)).
+(** the theorem's hypothesis (after the fixes in /repo: zero rows and mixed shapes are no longer excluded) *)
+Definition in_domain (k : case) : bool :=
+  let bs := mk_buckets (k_buckets k) in dom bs && keys_canonical bs.
 
-(** the property evaluated on the model: the dataset is built and both decoders return the buckets *)
+(** the property evaluated on the model: the conversion is refused, or the dataset is built and both
+    decoders return the buckets *)
 Definition model_roundtrip (k : case) : bool :=
   let bs := mk_buckets (k_buckets k) in
   match encode bs with
+  | Rejected => true
   | Ok (Some w) =>
       match to_csm w, resp_to_csm w with
       | Ok m1, Ok m2 => csm_eqb bs m1 && csm_eqb bs m2
